@@ -12,6 +12,10 @@ CHECKS = {
    technique="stateless deviation-bounded DFS over all orders/contents of server answers, cancellation instants and waits, on the real retry loop under virtual time (synctest), plus a free-running race-detector pass",
    text="Every choice vector up to the deviation bound (quick 4 / 3 for two callers, thorough 5 / 4) over a 15-answer menu, 4 cancellation instants, slow-server steps and answer orders, for 1-2 callers sharing one JSON client / LogClient with cancellable and deadline contexts; each execution runs to completion in a bubble and its recorded request/answer/return timeline is checked against the statement's bounds (first parsable 200 wins, only transport errors / bad 200 bodies / 408 / 429 / 503 are retried, never earlier than Retry-After, never later than 128 s + jitter unless asked, no added delay after 408, prompt context error, converted POST never a success).",
    note="Jitter (math/rand) is not owned; oracles use only the stated bounds. Interleavings are at HTTP round-trip granularity; the shared back-off state is additionally run free under the race detector (not exhaustive). Trusts testing/synctest's virtual clock."),
+ "C16": dict(level="exploration", engine="gate", design="5/C16",
+   technique="stateless deviation-bounded DFS over all answer orders, short-read lengths, injected errors, log growth and Stop/cancel instants on the real Fetcher/Scanner with a gated LogClient under virtual time, plus a free-running race-detector pass",
+   text="For every scenario (tree size 0..5 (thorough 7), every [start,end) incl. end=0 and end>size, batch 1-3, 1-3 parallel fetchers, matcher workers/buffer/kind, one-shot or continuous with growth steps) every choice vector within the deviation bound (quick 2, thorough 3) is executed to completion: which pending GetRawEntries/GetSTH is answered next and with what (full, each short length, 429, 500, network error), when the log grows, and Stop/cancel at any decision point. Oracle on the recorded deliveries: exactly the range, each index once, the log's bytes, right callback, no request outside the range, termination, continuous mode catches up after growth.",
+   note="Interleavings at the granularity of LogClient calls; accesses in between are covered by the free-running race pass (not exhaustive). Back-off jitter is owned for continuous scenarios by seeding math/rand per execution and running them one at a time. Zero-length answers and non-positive batch/worker counts are not generated."),
 }
 PENDING_REASON = "check not built yet in this round (design in DESIGN.md section 5); not claimed until its machinery exists and passes on the unchanged tree"
 checks, na = [], []
